@@ -109,20 +109,29 @@ def run(chk, prog):
 
     # completion region
     region_entry = None
+    t1 = None
     for b in range(len(ci.blocks)):
         tt = ci.blocks[b]['term']
-        if b in loop_blocks or not tt or tt['k'] != 'switch' or tt['d']['k'] not in ('copy', 'move'):
+        if b in loop_blocks or b not in after_loop or not tt or tt['k'] != 'switch' \
+                or tt['d']['k'] not in ('copy', 'move') or 'p' in tt['d']['pl']:
             continue
-        l = named_source(ci, tt['d']['pl']['l'])
-        if 'p' not in tt['d']['pl'] and ci.local_name(l) == 'output_stream_ends_in_newline':
-            # true edge target
+        pv = tr.prov(ci, tt['d'])
+        if 'call:Story::continue_single_step' in pv and 'discr' not in pv:
+            # the step's verdict ("the line is definitely complete"), tested after the loop: true edge target
             vals = [v for v, _ in tt['ts']]
             if 0 in vals:
                 region_entry = tt['else'] if len(tt['ts']) == 1 else [tb for v, tb in tt['ts'] if v != 0][0]
             else:
                 region_entry = [tb for v, tb in tt['ts'] if v != 0][0]
             t1 = b
-    if not chk.anchor(RB, 'completion test on output_stream_ends_in_newline after the loop', region_entry is not None):
+            break
+    chk.decide(RB, chk.key(RB, 'completion-region', 'verdict'), region_entry is not None,
+               'after the loop, the completion block is entered on the verdict returned by continue_single_step',
+               'after the interpreter loop continue_internal no longer tests the verdict returned by '
+               'continue_single_step ("the line is definitely complete"): whatever replaces it (for instance "the '
+               'output currently ends in a newline") is also true when a time-limited continue merely pauses inside '
+               'the look-ahead', ci.loc(sorted(after_loop - loop_blocks)[0]) if after_loop - loop_blocks else ci.loc(0))
+    if region_entry is None:
         return
 
     def skip_trivial(b):
